@@ -175,3 +175,9 @@ func VerifColdStartArmed(b policyapi.Backend, id string) bool {
 	cg.coldStartTimer.Stop()
 	return true
 }
+
+// VerifResetGlobals clears package-level state that outlives a policy instance (a harness
+// runs many policy instances on different machines in one process).
+func VerifResetGlobals() {
+	coldStartOff = false
+}
